@@ -26,3 +26,29 @@ func VerifC37New(dests []Destination, structured bool, file string, level Level,
 	}
 	return l, nil
 }
+
+// VerifC37NewStdoutColor returns a Logger with one stdout destination whose answer to "is the
+// process' standard output a terminal" is given by the caller (the value newDestionationStdout
+// obtains from term.IsTerminal), for hosts on which no pseudo-terminal can be opened. Records go
+// through the real Logger.Log and the real destinationStdout.log.
+func VerifC37NewStdoutColor(structured bool, level Level, now func() time.Time, stdout io.Writer, useColor bool) *Logger {
+	return &Logger{
+		Level:        level,
+		Destinations: []Destination{DestinationStdout},
+		Structured:   structured,
+		timeNow:      now,
+		stdout:       stdout,
+		destinations: []destination{&destinationStdout{structured: structured, stdout: stdout, useColor: useColor}},
+	}
+}
+
+// VerifC37StdoutIsTerminal reports what the stdout destination of an initialized Logger detected
+// about the process' standard output (ok is false when the Logger has no stdout destination).
+func VerifC37StdoutIsTerminal(l *Logger) (isTerminal bool, ok bool) {
+	for _, d := range l.destinations {
+		if sd, is := d.(*destinationStdout); is {
+			return sd.useColor, true
+		}
+	}
+	return false, false
+}
